@@ -847,7 +847,38 @@ def check_table(ctx, case):
     if m.atom_density(Z, A) is not None:
         got = at.neutron.scattering(wavelength=np.array(allw))
         _compare(ctx, got, counts, m.atom_density(Z, A), allw, (len(allw),), label + ' [direct vector]', table=True)
+    # the same entry on a private table whose neutron data were loaded and then loaded again (the documented
+    # nsf.init(table, reload=True)): the energy tables belong to the data and are there after a reload as well
+    Tr = _reloaded_table(ctx)
+    if Tr is not None:
+        from ..atoms import lookup
+        atr = lookup(Tr, (Z, A, 0))
+        ctx.count('reloaded_private_table.entries')
+        got = pt.neutron_scattering(atr, density=rho, wavelength=np.array(allw))
+        _compare(ctx, got, counts, rho, allw, (len(allw),), label + ' [private table after init(reload=True), vector]', table=True)
+        got = pt.neutron_scattering({atr: 2}, density=rho, energy=es[:6])
+        _compare(ctx, got, {(Z, A, 0): 2}, rho, [m.wavelength_of_energy(e) for e in es[:6]], (6,),
+                 label + ' [private table after init(reload=True), energy vector]', table=True)
     _drain(ctx, label)
+
+
+def _reloaded_table(ctx):
+    """A private table with mass, density and neutron data, the neutron data loaded twice (reload=True)."""
+    if 'reloaded' not in _state:
+        from periodictable import core, mass, density, nsf
+        try:
+            T = core.PeriodicTable('c03_reloaded_%d' % ctx.shard)
+            mass.init(T)
+            density.init(T)
+            nsf.init(T)
+            nsf.init(T, reload=True)
+        except Exception as exc:
+            T = None
+            ctx.note('private table with reloaded neutron data could not be built (%s: %s): that pass is skipped'
+                     % (type(exc).__name__, exc))
+            ctx.count('anchor_missing.reloaded_private_table.entries')
+        _state['reloaded'] = T
+    return _state['reloaded']
 
 
 def _mutate(buf, step):
@@ -1011,6 +1042,7 @@ def finish(ctx):
     for k in _state['tabled']:
         ctx.require('energy_dependent_entry_seen.%s%s' % (_state['model'].symbol[k[0]], k[1] or ''), 1,
                     'each of the %d energy-dependent entries must be exercised' % n_tabled)
+    ctx.require('reloaded_private_table.entries', 1, 'an energy-dependent entry must have been read from a private table after init(reload=True)')
     ctx.require('postcondition.evaluations', 1, 'the postcondition on nsf._calculate_scattering must have been evaluated')
     ctx.require('postcondition.clip_active', 1, 'the incoherent clip (sigma_s < sigma_c) must have been active at least once')
     ctx.require('reference.incoherent_clip_active', 1, 'a compared call for which the documented equations clip the incoherent '
